@@ -1,8 +1,105 @@
-/- driver component stub: replaced by the real component when its model exists -/
+/- driver component `gen`: slide lists, move tables, move generator, move ids, `MoveWF`,
+   and `Rules.Legal` evaluated over candidate sets (C03, C07) -/
 import TakVerif.Driver.Ser
+import TakVerif.Model.Gen
+import TakVerif.Spec.Rules
+import TakVerif.Spec.MoveWF
 
 namespace Tak.Driver.Gen
+open Tak.Ser
 
-def handle : List String → Option String := fun _ => none
+/-- compact move text: the four tokens of `Ser.showMove` joined by `:` -/
+def showMoveC (m : Move) : String :=
+  s!"{m.x}:{m.y}:{natOfMoveType m.type}:{showSlides m.slides}"
+
+def parseMoveC (s : String) : Option Move := parseMove (s.splitOn ":")
+
+/-- a list of moves: compact moves joined by `;`, the empty list is `.` -/
+def showMoves (l : List Move) : String :=
+  if l.isEmpty then "." else ";".intercalate (l.map showMoveC)
+
+def parseMoves (s : String) : Option (List Move) :=
+  if s = "." then some [] else (s.splitOn ";").mapM parseMoveC
+
+def showSlideList (l : List (List Nat)) : String :=
+  if l.isEmpty then "." else ";".intercalate (l.map fun s => ",".intercalate (s.map toString))
+
+def showOptNat : Option Nat → String
+  | none => "none"
+  | some i => toString i
+
+def showOptMove : Option Move → String
+  | none => "none"
+  | some m => showMoveC m
+
+/-- `0` not legal, `1` legal and plain, `2` legal but a placement carrying a drop tuple
+    (the rules ignore the tuple; generator and table are not asked to list such a value) -/
+def legalCode (p : Pos) (m : Move) : Char :=
+  if Rules.legalb p m then (if decide m.Plain then '1' else '2') else '0'
+
+/-- ops:
+  `slides <n>`                 → `ALL_SLIDES[n]` in order, `1;1,1;…`
+  `table <n>`                  → `all_moves_for_size(n)` in order
+  `allmoves <pos7>`            → `Position.all_moves()` in order
+  `legal <pos7>`               → the legal moves among table ∪ generator (table order first)
+  `legalmask <pos7> <moves>`   → one character per candidate: 0 / 1 / 2 (see `legalCode`)
+  `encode <n> <move4>`         → id | `none`
+  `encodes <n> <moves>`        → ids joined by `,`
+  `decode <n> <id>`            → move | `none`
+  `wf <n> <move4>`             → `true` | `false`   (MoveWF)
+  `wfmask <n> <moves>`         → one character per move: 1 = MoveWF
+  `nodup <moves>`              → `true` | `false`
+  `count <n>`                  → length of the table
+-/
+def handle : List String → Option String
+  | ["slides", n] => do
+    let n ← n.toNat?
+    pure (showSlideList (Tak.Gen.slides n))
+  | ["table", n] => do
+    let n ← n.toNat?
+    pure (showMoves (Tak.Gen.allMovesForSize n))
+  | ["count", n] => do
+    let n ← n.toNat?
+    pure (toString (Tak.Gen.allMovesForSize n).length)
+  | "allmoves" :: rest => do
+    let p ← parsePos rest
+    pure (showMoves (Tak.Gen.allMoves p))
+  | "legal" :: rest => do
+    let p ← parsePos rest
+    let t := Tak.Gen.allMovesForSize p.size
+    let g := (Tak.Gen.allMoves p).filter fun m => !t.contains m
+    pure (showMoves ((t ++ g.eraseDups).filter (Rules.legalb p)))
+  | "legalmask" :: rest => do
+    let p ← parsePos (rest.take 7)
+    match rest.drop 7 with
+    | [ms] =>
+      let ms ← parseMoves ms
+      pure (String.ofList (ms.map (legalCode p)))
+    | _ => none
+  | "encode" :: n :: rest => do
+    let n ← n.toNat?
+    let m ← parseMove rest
+    pure (showOptNat (Tak.Gen.encodeMove n m))
+  | ["encodes", n, ms] => do
+    let n ← n.toNat?
+    let ms ← parseMoves ms
+    let t := Tak.Gen.allMovesForSize n
+    pure (",".intercalate (ms.map fun m => showOptNat (Tak.Gen.lastIdxOf m t)))
+  | ["decode", n, i] => do
+    let n ← n.toNat?
+    let i ← i.toNat?
+    pure (showOptMove (Tak.Gen.decodeMove n i))
+  | "wf" :: n :: rest => do
+    let n ← n.toNat?
+    let m ← parseMove rest
+    pure (toString (decide (MoveWF n m)))
+  | ["wfmask", n, ms] => do
+    let n ← n.toNat?
+    let ms ← parseMoves ms
+    pure (String.ofList (ms.map fun m => if decide (MoveWF n m) then '1' else '0'))
+  | ["nodup", ms] => do
+    let ms ← parseMoves ms
+    pure (toString (decide ms.Nodup))
+  | _ => none
 
 end Tak.Driver.Gen
